@@ -13,6 +13,7 @@ CONSTANTS
   MaxProgress = FALSE
   FixDrain = TRUE
   FixDrop = TRUE
+  AllowDown = FALSE
   MaxNextId = 0
 INVARIANTS TypeOK Routing AckMatches NoBadAck NoPanic NoWedge LockFree
 
